@@ -141,7 +141,7 @@ def parse_custom(r, tier, frac=0.3):
 
 def parse_sdes(r, tier):
     return (streams.typed_stream("sdes", r, tier) + streams.sdes_short_bodies(r, tier)
-            + streams.sdes_wf_variants(r, 150 if tier == "quick" else 3000))
+            + streams.sdes_wf_variants(r, 600 if tier == "quick" else 6000))
 
 
 def parse_fci(r, tier):
@@ -171,7 +171,7 @@ def parse_compound(r, tier):
 
 def parse_all(r, tier):
     return (parse_typed(r, tier) + parse_custom(r, tier) + streams.sdes_short_bodies(r, tier)
-            + streams.sdes_wf_variants(r, 100 if tier == "quick" else 3000) + parse_compound(r, tier)
+            + streams.sdes_wf_variants(r, 300 if tier == "quick" else 6000) + parse_compound(r, tier)
             + parse_fci(r, tier) + streams.rb_stream(r, tier) + streams.big_inputs(r))
 
 
@@ -179,7 +179,7 @@ def pad_stream(r, tier, kinds=None):
     reqs = []
     kinds = kinds or (streams.TYPED + ["unknown", "packet"])
     for k in kinds:
-        for _ in range(60 if tier == "quick" else 1500):
+        for _ in range(250 if tier == "quick" else 3000):
             c = streams.wf_cfg_for(k, r)
             c["padding"] = 0
             if "inner" in c: c["inner"]["padding"] = 0
@@ -216,7 +216,7 @@ def group_stream(r, tier):
     """C20: for each configuration the canonical call sequence followed by other call sequences
     reaching the same final configuration; meta['group'] is the index of the canonical one"""
     ce = []
-    n = 40 if tier == "quick" else 800
+    n = 120 if tier == "quick" else 1500
     for k in ("sr", "rr", "bye", "app", "sdes", "unknown", "fb", "custom", "pb", "compound", "chunk", "item", "fci"):
         cfgs = [c for c in streams.build_cfgs(k, r, "quick") if not c.get("_big")]
         r.shuffle(cfgs)
@@ -267,7 +267,7 @@ def streams_for(pid, r, tier):
     if pid == "C12":
         out = streams.typed_stream("packet", r, tier)
         for k in streams.TYPED + ["unknown"]:
-            out += [streams.P("packet", m["bytes"]) for _, m in streams.structured(k, r, 40 if tier == "quick" else 800)]
+            out += [streams.P("packet", m["bytes"]) for _, m in streams.structured(k, r, 150 if tier == "quick" else 1500)]
         return out
     if pid == "C13":
         return pad_stream(r, tier)
